@@ -285,6 +285,13 @@ def digest_runs(eng, n, chunk=5):
     for part in eng.map(_digest_chunk, jobs):
         for idx, d in part:
             yield idx, d
+    # distribution phases (C03, C05, C18): outcome counts of a small batch per scenario, through the pool
+    check = eng.check
+    lister = getattr(check, "dist_scenarios", None)
+    if lister is not None:
+        for k, (tag, sc) in enumerate(lister(eng.seed, eng.tier)[:6]):
+            cnt = eng.distribution(sc, 600, tag, chunk=100)
+            yield f"dist:{tag}", f"{h64(tuple(sorted((repr(a), b) for a, b in cnt.items()))):016x}"
 
 
 def _dist_chunk(args):
